@@ -16,7 +16,7 @@ def gen_run(tier, fault=False):
 
     @st.composite
     def strat(draw):
-        g = draw(wass.grid_specs(max_cells=mc, min_cells=2))
+        g = draw(wass.grid_specs(max_cells=mc, min_cells=2, dims=(1, 2, 2, 2, 3, 3)))
         o = draw(wass.option_specs(max_iter=12 if tier == "quick" else 40))
         case = {"grid": g, "mass": draw(wass.mass_specs()), "opt": o,
                 "weight": draw(wass.weight_specs())}
